@@ -144,6 +144,10 @@ def _generic(gen, body, carried, stmt_calls=()):
     for name, cell, v in snap:
         if name in carried and isi(v, (int, SInt)) and not isi(v, bool):
             acc0[name] = SInt(z3.Int(fresh_name(f"acc0.{name}")))
+        elif name in carried and isi(v, (bool, SBool)):
+            # a flag: run the body on a fresh symbolic value so that every assignment is seen (even `flag = False` when the
+            # flag is False) and updates like `flag = flag or c(x)` can be analysed
+            acc0[name] = SBool(z3.Bool(fresh_name(f"flag0.{name}")))
     ivar = gen.base.ivar
 
     def reset():
@@ -202,6 +206,22 @@ def _generic(gen, body, carried, stmt_calls=()):
                 return True
         return False
 
+    # a path condition that depends on the running value of a carried variable makes the loop order-dependent, except for
+    # the flag idiom `flag = flag and/or c(x)` (analysed below): such a path may change that flag only
+    syms = {name: a.t for name, a in acc0.items()}
+    for cond, val in feasible:
+        used = [name for name, t in syms.items() if _mentions(cond, t)]
+        if not used:
+            continue
+        if isi(val, LocalRaise) or val[0] is not None:
+            raise Unsupported("an early exit of the loop depends on the running value of a carried variable")
+        _, after, emits = val
+        if any(emits[k] for k in emits):
+            raise Unsupported("what the loop appends depends on the running value of a carried variable (order-dependent)")
+        for name, cell, v in snap:
+            if name in carried and after.get(name, v) is not acc0.get(name, v):
+                if not (len(used) == 1 and used[0] == name and type(acc0[name]) is SBool):
+                    raise Unsupported(f"the update of `{name}` depends on the running value of a carried variable (not a fold)")
     if exits:
         if any(effects(val[1], val[2]) for cond, val in feasible if not isi(val, LocalRaise)):
             raise Unsupported("loop with an early exit that also accumulates (order-dependent under the bag abstraction)")
@@ -225,10 +245,47 @@ def _generic(gen, body, carried, stmt_calls=()):
             continue
         changed = [(cond, after[name]) for cond, after, _ in normal if after.get(name, v) is not acc0.get(name, v)]
         if not changed:
+            cell.cell_contents = v
             continue
         if name not in acc0:
-            raise Unsupported(f"loop-carried variable `{name}` that is not an integer accumulator")
+            raise Unsupported(f"loop-carried variable `{name}` that is neither an integer accumulator nor a boolean flag")
+        if type(acc0[name]) is SBool:
+            # boolean flag.  Each path's new value is a term T(flag, i); the loop is order-independent if every update is
+            # monotone in the same direction:  up   (T[flag:=True] = True):  final = old or  EXISTS i. cond(i) and T[False](i)
+            #                                  down (T[flag:=False] = False): final = old and FORALL i. cond(i) -> T[True](i)
+            f0 = acc0[name].t
+            # combined per-element update U(flag, i): the path taken may itself depend on the flag (`ok = ok and p(x)`)
+            U = f0
+            for cond, after, _ in reversed(normal):
+                nv = after.get(name, v)
+                if nv is acc0[name]:
+                    continue
+                if not isi(nv, (bool, SBool)):
+                    raise Unsupported(f"loop-carried flag `{name}` leaves the booleans")
+                U = z3.If(cond, to_bterm(nv), U)
+            U1 = z3.simplify(z3.substitute(U, (f0, z3.BoolVal(True))))
+            U0 = z3.simplify(z3.substitute(U, (f0, z3.BoolVal(False))))
+
+            def valid(t):
+                if z3.is_true(t):
+                    return True
+                sv = z3.Solver()
+                sv.set("timeout", 3000)
+                sv.add(gen.base.inrange(), gen.guard, z3.Not(t))
+                return sv.check() == z3.unsat
+            old = to_bterm(v)
+            if valid(U1):
+                ex = seq_len(Seq([Gen(gen.base, z3.And(gen.guard, U0), gen.elem)])) >= 1
+                cell.cell_contents = lift(z3.Or(old, to_bterm(ex)))
+            elif valid(z3.Not(U0)):
+                ex = seq_len(Seq([Gen(gen.base, z3.And(gen.guard, z3.Not(U1)), gen.elem)])) >= 1
+                cell.cell_contents = lift(z3.And(old, z3.Not(to_bterm(ex))))
+            else:
+                raise Unsupported(f"loop-carried flag `{name}` is updated non-monotonically (last writer wins: order-dependent)")
+            continue
         a0 = acc0[name].t
+        if any(_mentions(cond, a0) for cond, _, _ in normal):
+            raise Unsupported(f"the path taken in the loop body depends on the running value of `{name}` (not a fold)")
         pairs = []
         for cond, after, _ in normal:
             nv = after[name]
